@@ -777,11 +777,82 @@ pub fn judge(rt: &tokio::runtime::Runtime, r: &mut Report, case: &Case, features
     }
 }
 
+
+// ---------------------------------------------------------------------------------------------
+// forgeries that follow a valid request on the same service (DESIGN 9.2): whatever an implementation remembers from
+// one verification (a derived signing key, a parsed scope) must not verify a request of another account or scope
+// ---------------------------------------------------------------------------------------------
+
+/// Authorization header for `req` naming `access_key` and the scope (date, region, service), with the signature computed
+/// under an arbitrary signing key (the forger's: derived from ANOTHER secret or scope)
+fn sign_with_signing_key(req: &mut RawRequest, access_key: &str, amz_date: &str, region: &str, service: &str, signing_key: &[u8]) -> Option<()> {
+    let payload = sha256_hex(&req.body);
+    req.headers.push(("x-amz-date".into(), amz_date.as_bytes().to_vec()));
+    req.headers.push(("x-amz-content-sha256".into(), payload.clone().into_bytes()));
+    let signed: Vec<String> = vec!["host".into(), "x-amz-content-sha256".into(), "x-amz-date".into()];
+    let (path, q) = split_uri(&req.uri);
+    let decoded_path = pct_decode(path)?;
+    let (pairs, _) = parse_query(q.unwrap_or(""))?;
+    let headers: Vec<(String, String)> = req.headers.iter().map(|(k, v)| (k.clone(), String::from_utf8_lossy(v).into_owned())).collect();
+    let (block, names) = v4_canonical_headers(&headers, &signed)?;
+    let cr = v4_canonical_request(&req.method, &decoded_path, &v4_canonical_query(&pairs, false), &block, &names, &payload);
+    let scope = format!("{}/{region}/{service}/aws4_request", &amz_date[..8]);
+    let sts = v4_string_to_sign(amz_date, &scope, &cr);
+    let sig = hex::encode(hmac_sha256(signing_key, sts.as_bytes()));
+    req.headers.push(("authorization".into(), format!("AWS4-HMAC-SHA256 Credential={access_key}/{scope}, SignedHeaders={}, Signature={sig}", signed.join(";")).into_bytes()));
+    Some(())
+}
+
+/// one valid request of the first account, then forgeries made with ITS signing key: another known account under the
+/// same scope; the same account under another region / service; an account whose name continues the first one's with
+/// the scope shifted by that many characters (so that key ++ date ++ region reads the same); each must be refused
+fn forgery_round(rt: &tokio::runtime::Runtime, r: &mut Report, g: &mut Rng, base_secrets: &HashMap<String, String>) {
+    let amz_now = unix_to_amz_date(now_unix() + g.range(-60, 60));
+    let region = (*g.pick(&["1x-verif", "us-east-1", "2nd-region-9", "eu-west-3"])).to_owned();
+    // an account whose name is the first one's plus the first character of today's date
+    let ak_cont = format!("{AK}{}", &amz_now[..1]);
+    let mut secrets = base_secrets.clone();
+    secrets.insert(ak_cont.clone(), format!("sk5{}", g.alnum(30)));
+    let victim_key = v4_signing_key(&secrets[AK], &amz_now[..8], &region, "s3");
+    let fresh = |g: &mut Rng| {
+        let key = format!("forgery-{}", g.lower_alnum(6));
+        RawRequest::new(if g.chance(1, 2) { "GET" } else { "DELETE" }, &format!("/bucket1/{key}")).header("host", "h.example")
+    };
+    // 1. the valid request (it must be accepted, else the round says nothing)
+    let mut valid = fresh(g);
+    if sign_with_signing_key(&mut valid, AK, &amz_now, &region, "s3", &victim_key).is_none() {
+        return;
+    }
+    let case = Case { req: valid, op: "after-valid/the-valid-request".into(), payload_mode: "empty-digest".into(), secrets: secrets.clone() };
+    judge(rt, r, &case, &[]);
+    // 2. forgeries with the signing key of (AK, today, region, s3)
+    let mut forged: Vec<(&str, String, String, String, &str)> = vec![
+        ("after-valid/other-account-same-scope", AK2.to_owned(), amz_now.clone(), region.clone(), "s3"),
+        ("after-valid/related-secret-account-same-scope", AK3.to_owned(), amz_now.clone(), region.clone(), "s3"),
+        ("after-valid/same-account-other-region", AK.to_owned(), amz_now.clone(), format!("{region}x"), "s3"),
+        ("after-valid/same-account-other-service", AK.to_owned(), amz_now.clone(), region.clone(), "sts"),
+    ];
+    if region.len() > 1 {
+        // key ++ date ++ region is the same text: AK+"2" / "0260928"+"1" / "x-verif"
+        let shifted_date = format!("{}{}{}", &amz_now[1..8], &region[..1], &amz_now[8..]);
+        forged.push(("after-valid/continued-account-name-shifted-scope", ak_cont.clone(), shifted_date, region[1..].to_owned(), "s3"));
+    }
+    for (op, ak, date, reg, svc) in forged {
+        let mut q = fresh(g);
+        if sign_with_signing_key(&mut q, &ak, &date, &reg, svc, &victim_key).is_none() {
+            continue;
+        }
+        let case = Case { req: q, op: op.into(), payload_mode: "empty-digest".into(), secrets: secrets.clone() };
+        judge(rt, r, &case, &[]);
+        r.count("forgeries_after_a_valid_request", 1);
+    }
+}
+
 pub fn run(ctx: &RunCtx) -> i32 {
     let meta = CheckMeta {
         property: "C05",
         level: "exploration",
-        rule: "base requests (5 methods, keys and query pairs over hostile alphabets, repeated query names, extra headers with inner/edge whitespace and repeated names, bodies 0..64 KiB, payload mode digest / UNSIGNED-PAYLOAD) signed by the reference signer (cross-checked per request against the aws-sigv4 crate), then ~40 single-component mutants each without re-signing (signature chars / truncation / case, credential key / scope, date, body bit, payload mode, method, path char, query pair add/drop/dup/change, signed header value/add/remove, host, provider secret) and canonical-equivalent rewrites (order, case, edge whitespace, escape spelling). Each is run through S3Service::call with a recording provider, hook and backend and judged against the reference verdict on the request as sent. A cell is (payload mode, operator, verdict).".into(),
+        rule: "base requests (5 methods, keys and query pairs over hostile alphabets, repeated query names, extra headers with inner/edge whitespace and repeated names, bodies 0..64 KiB, payload mode digest / UNSIGNED-PAYLOAD) signed by the reference signer (cross-checked per request against the aws-sigv4 crate), then ~40 single-component mutants each without re-signing (signature chars / truncation / case, credential key / scope, date, body bit, payload mode, method, path char, query pair add/drop/dup/change, signed header value/add/remove, host, provider secret) and canonical-equivalent rewrites (order, case, edge whitespace, escape spelling). Each is run through S3Service::call with a recording provider, hook and backend and judged against the reference verdict on the request as sent. Forgery leg: on one service instance, after a valid request of an account, requests made with that account's signing key but naming another known account (same scope), the same account under another region / service, or an account whose name continues the first one's with the scope shifted accordingly - each must be refused. A cell is (payload mode, operator, verdict).".into(),
         assumptions: vec![
             "verdicts the AWS documents leave open (x-amz-date absent, unsigned x-amz-* header, literal '+' in the query, GET with body, duplicated Authorization) are counted as abstentions".into(),
             "accept verdicts of base requests are demanded only when the aws-sigv4 crate produces the same signature (when it can express the request)".into(),
@@ -831,7 +902,24 @@ pub fn run(ctx: &RunCtx) -> i32 {
         }
         r.count("requests_served_by_a_reused_service_instance", session_end());
     });
+    let mut total = total;
+    total.merge(forgery_leg(ctx, &secrets, ctx.tier.sz(400, 20_000)));
     finish(ctx, &meta, &total)
+}
+
+pub fn forgery_leg(ctx: &RunCtx, secrets: &HashMap<String, String>, n: u64) -> Report {
+    {
+    let forg = par_run(ctx.workers, n, |j, r| {
+        let rt = new_runtime();
+        let mut g = Rng::new(derive_seed(ctx.seed, "C05-forgery", j));
+        session_begin();
+        for _ in 0..6 {
+            forgery_round(&rt, r, &mut g, secrets);
+        }
+        r.count("requests_served_by_a_reused_service_instance", session_end());
+    });
+    forg
+    }
 }
 
 pub fn replay(v: &Value) -> i32 {
